@@ -874,6 +874,52 @@ pub fn run(out: &mut Out, thorough: bool, seed: u64) {
             } else { e.out.count("tr-cache unparsed"); }
         }
     }
+    // the same descriptor family over REAL keys, all pairs, in three states: both fresh, both
+    // USED (script_pubkey / spend info computed: every lazily filled cache is full), one of each.
+    // Mirrored trees and multi_a / sortedmulti_a over sorted keys share an output key without
+    // sharing a structure.
+    {
+        type D = Descriptor<miniscript::bitcoin::PublicKey>;
+        let letters: [(&str, u32); 6] = [("A", 1), ("B", 2), ("C", 3), ("D", 4), ("I", 5), ("J", 6)];
+        let mut srcs: Vec<String> = vec![];
+        let mut raw = descriptor_strings();
+        raw.extend(["tr(I,{{pk(A),pk(B)},{pk(C),pk(D)}})", "tr(I,{{pk(C),pk(D)},{pk(A),pk(B)}})", "tr(I,{{pk(B),pk(A)},{pk(C),pk(D)}})",
+                    "tr(I,{pk(C),{pk(A),pk(B)}})", "tr(I,{pk(C),{pk(B),pk(A)}})", "tr(I,{{pk(B),pk(A)},pk(C)})",
+                    "tr(I,multi_a(1,B,A))", "tr(I,sortedmulti_a(1,B,A))", "tr(I,sortedmulti_a(2,A,B))", "tr(I,sortedmulti_a(2,B,A))",
+                    "tr(I,{pk(A),pk(A)})", "tr(I,pk(I))", "tr(A,pk(B))", "tr(B,pk(A))",
+                    "wsh(sortedmulti(1,B,A))", "wsh(sortedmulti(2,A,B))", "sh(sortedmulti(1,A,B))", "sh(sortedmulti(1,B,A))"].iter().map(|s| s.to_string()));
+        for d in raw {
+            // letters stand alone between punctuation in these strings
+            let mut t = String::new();
+            let cs: Vec<char> = d.chars().collect();
+            for (i, c) in cs.iter().enumerate() {
+                let alone = (i == 0 || !cs[i - 1].is_ascii_alphanumeric() && cs[i - 1] != '_') && (i + 1 == cs.len() || !cs[i + 1].is_ascii_alphanumeric() && cs[i + 1] != '_');
+                match letters.iter().find(|(l, _)| alone && l.chars().next() == Some(*c)) {
+                    Some((_, id)) => t.push_str(&ast::full_key(*id).to_string()),
+                    None => t.push(*c),
+                }
+            }
+            srcs.push(t);
+        }
+        let fresh = str_items::<D>(&srcs, e.out, "descriptor-pk");
+        let used: Vec<(String, D)> = fresh.iter().map(|(s, d)| {
+            let u = d.clone();
+            let _ = guarded(|| u.script_pubkey());
+            if let Descriptor::Tr(tr) = &u { let _ = guarded(|| tr.spend_info()); }
+            (s.clone(), u)
+        }).collect();
+        e.out.note("descriptor_pk_family", fresh.len().to_string());
+        emit_str_family(&mut e, "descriptor-pk", &fresh, &mut rng, if thorough { 2000 } else { 300 }, &|a, b| hash_same(a, b));
+        emit_str_family(&mut e, "descriptor-pk-used", &used, &mut rng, if thorough { 2000 } else { 300 }, &|a, b| hash_same(a, b));
+        // one fresh, one used (all pairs)
+        for (sa, a) in &fresh {
+            for (sb, b) in &used {
+                let o = observe(a, b);
+                e.out.count("strpair descriptor-pk-mixed");
+                e.out.line(&format!("J eqstruct descriptor-pk-mixed {} {} {} {} {} {} {}", sa, sb, o.eq, o.cmp, o.hash, o.disp, o.pc), "ok");
+            }
+        }
+    }
     let cs = str_items::<Concrete<String>>(&concrete_strings(), e.out, "concrete");
     emit_str_family(&mut e, "concrete", &cs, &mut rng, if thorough { 3000 } else { 500 }, &|a, b| hash_same(a, b));
     let ss = str_items::<Semantic<String>>(&semantic_strings(), e.out, "semantic");
@@ -881,5 +927,5 @@ pub fn run(out: &mut Out, thorough: bool, seed: u64) {
     emit_str_family(&mut e, "semantic", &ss, &mut rng, if thorough { 3000 } else { 500 }, &|a, b| a == b);
     c19x::run(&mut e, thorough, &mut rng);
     e.out.note("distinct_nontrivial", n_inputs.to_string());
-    e.out.note("domain", "per context: enumerated fragments (depth 2, all base types) + random larger ones, each vs itself, vs its one-edit neighbours (k, arity, leaf, sorted/unsorted, wrapper, sugar, child order) and vs random others; triples inside neighbourhoods, random, and along library-sorted chains; string-built descriptors (wsh/sh/sh-wsh/tr/pkh/wpkh), Tr with/without cache, concrete and semantic policies: all pairs + random triples".into());
+    e.out.note("domain", "per context: enumerated fragments (depth 2, all base types) + random larger ones, each vs itself, vs its one-edit neighbours (k, arity, leaf, sorted/unsorted, wrapper, sugar, child order) and vs random others; triples inside neighbourhoods, random, and along library-sorted chains; string-built descriptors (wsh/sh/sh-wsh/tr/pkh/wpkh), Tr with/without cache, the same descriptor family over REAL keys (plus mirrored trees, multi_a / sortedmulti_a twins, sortedmulti key orders) in three states - both fresh, both USED (script_pubkey / spend_info computed), one of each - all pairs; concrete and semantic policies: all pairs + random triples".into());
 }
